@@ -21,4 +21,11 @@ Reach(c, frontier, seen) ==
 OnCycle(c, g) == g \in Reach(c, {g}, {})
 Cyclic(c) == \E g \in Glyphs : OnCycle(c, g)
 
+
+\* second family: a two-master source whose masters may have DIFFERENT component graphs (at most one
+\* component per glyph), e.g. a cycle that exists only in the non-default master or only in the default one
+CompLists1 == {<<>>} \cup {<<x>> : x \in Glyphs}
+Cases2 == [reg : [Glyphs -> CompLists1], bold : [Glyphs -> CompLists1]]
+\* a master whose own graph is cyclic can never be compiled
+Cyclic2(c) == Cyclic(c.reg) \/ Cyclic(c.bold)
 =============================================================================
